@@ -267,19 +267,27 @@ func applyCustomerRates(doc billable) {
 	}
 	country := doc.getCustomer().TaxID.Country
 	for _, l := range doc.getLines() {
-		addCountryToTaxes(l.Taxes, country)
+		if l != nil {
+			addCountryToTaxes(l.Taxes, country)
+		}
 	}
 	for _, d := range doc.getDiscounts() {
-		addCountryToTaxes(d.Taxes, country)
+		if d != nil {
+			addCountryToTaxes(d.Taxes, country)
+		}
 	}
 	for _, c := range doc.getCharges() {
-		addCountryToTaxes(c.Taxes, country)
+		if c != nil {
+			addCountryToTaxes(c.Taxes, country)
+		}
 	}
 }
 
 func addCountryToTaxes(ts tax.Set, country l10n.TaxCountryCode) {
 	for _, t := range ts {
-		t.Country = country
+		if t != nil {
+			t.Country = country
+		}
 	}
 }
 
